@@ -51,7 +51,10 @@ func vh_c05_escapers_q() { vc05_escapers(3) }
 func vh_c05_escapers_t() { vc05_escapers(5) }
 func vh_c05_url_q() { vc05_url(2, 1) }
 func vh_c05_url_t() { vc05_url(3, 1) }
-func vh_c05_url2_t() { vc05_url(2, 2) }
+func vh_c05_url2_t() { vc05_url(1, 3) }
+
+
+
 
 
 
